@@ -15,12 +15,11 @@ Definition triple_eqb (x y : Z * Z * Z) : bool :=
   let '(a, b, c) := x in let '(d, e, f) := y in (a =? d) && (b =? e) && (c =? f).
 
 (* 0 ok | 1 generated model <> implementation's normalize_index (translator/model unfaithful)
-   | 2 implementation selects other elements than Python/NumPy, inside the proved domain
-   | 3 the same, outside the domain (clause D1) *)
+   | 2 implementation selects other elements than Python/NumPy *)
 Definition judge_slice (c : slice_case) : Z :=
   let '(a, b, st, dim, inorm, isel) := c in
   let m := normalize_slice (VSlice (oz a) (oz b) (oz st)) dim in
   let step0 := match st with Some 0 => true | _ => false end in
   if negb step0 && negb (opt_eqb triple_eqb (norm_triple m) inorm) then 1
   else if opt_eqb zl_eqb (slice_selects a b st dim) isel then 0
-  else if d1_clause b st then 2 else 3.
+  else 2.
